@@ -1,0 +1,21 @@
+//go:build verif
+
+package account
+
+import (
+	atypes "github.com/rigochain/rigo-go/ctrlers/types"
+	"github.com/rigochain/rigo-go/types/xerrors"
+)
+
+// VerifIterAccounts iterates over all accounts of the last committed version (read-only).
+func (ctrler *AcctCtrler) VerifIterAccounts(cb func(*atypes.Account)) error {
+	ctrler.mtx.RLock()
+	defer ctrler.mtx.RUnlock()
+	if xerr := ctrler.acctLedger.IterateReadAllFinalityItems(func(a *atypes.Account) xerrors.XError {
+		cb(a)
+		return nil
+	}); xerr != nil {
+		return xerr
+	}
+	return nil
+}
